@@ -16,14 +16,19 @@ func runC13() {
 	if run.Tier == "thorough" {
 		L = 4
 	}
+	// first a preset whose history vectors have lengths that are not powers of two (short sequences), then T4
+	odd := chainh.T4(chainh.AllForks)
+	odd.Name, odd.OddVectors = "T4-odd-vectors", true
+	e0, n0 := chainh.GenesisCheck(run, odd, 1)
 	p := chainh.T4(chainh.AllForks)
 	e, n := chainh.GenesisCheck(run, p, L)
+	e, n = e+e0, n+n0
 	run.Set("evaluations", e)
 	run.Set("distinct_nontrivial", n)
 	run.Set("max_sequence_length", L)
 	run.Set("rule", "every sequence of length <= L over a 14-entry deposit alphabet (new validator with amounts on both sides of every threshold: 1 increment +-1 Gwei, MAX-1 Gwei, MAX-1 increment, MAX, MAX+1 increment, 2 MAX; invalid proof-of-possession; pubkey that is not a curve point; top-ups of the first / the latest key with valid or invalid signature, pushing across MAX; same key with other credentials), appended to or inserted into a base of SLOTS_PER_EPOCH valid deposits, each deposit with a real Merkle proof against the incremental deposit root built by an independent deposit-tree implementation, x 3 eth1 timestamps around MIN_GENESIS_TIME; compared: state bytes and root, returned context vs from-scratch context, committees/proposers vs the specification, IsValidGenesisState on both sides of the active-validator threshold; plus KickStartState on 6 validator sets. non-trivial = the sequence is non-empty.")
 	run.Set("exhaustive", true)
 	run.Assume("reference initialize_beacon_state_from_eth1 / is_valid_genesis_state in internal/refspec; real BLS proof-of-possession signatures",
-		"zrnt documents that it refuses fewer validators than SLOTS_PER_EPOCH: for such lists nothing is compared", "T4 preset")
+		"zrnt documents that it refuses fewer validators than SLOTS_PER_EPOCH: for such lists nothing is compared", "T4 preset; sequences of length <= 1 also under a preset with 9 randao mixes / 12 block roots / 5 slashings entries")
 	run.Finish()
 }
